@@ -169,7 +169,7 @@ class World:
         if sub.get("stop"):
             # a StopAppMessage handled step by step: one resumption = up to the next yield of
             # stop_application (the base _clear_phys_qubit_in_memory yields once per released qubit)
-            self.last_model_ops = []
+            self.last_model_ops = [("XStopBegin" if sub.pop("fresh", False) else "XStopStep", sub["nd"], sub["app"])]
             try:
                 next(sub["gen"])
             except StopIteration:
@@ -235,7 +235,7 @@ class World:
                 um = ex._qubit_unit_modules.get(app)
                 self.msg_id += 1
                 g = self.ctrl(nd).handle_netqasm_message(self.msg_id, M.StopAppMessage(app))
-                self.live[label] = dict(gen=g, nd=nd, app=app, stop=True)
+                self.live[label] = dict(gen=g, nd=nd, app=app, stop=True, fresh=True)
                 if um is not None:
                     self.stopping[(nd, app)] = {(nd, p) for p in um if p is not None}
                     self.registered.discard((nd, app))
@@ -425,6 +425,15 @@ def coq_obs(out, ob):
 
 def coq_op(op):
     k = op[0]
+    if k == "XStopBegin":
+        return f"(XStopBegin {z(op[1])} {z(op[2])})"
+    if k == "XStopStep":
+        return f"(XStopStep {z(op[1])} {z(op[2])})"
+    return "(XOp " + coq_plain_op(op) + ")"
+
+
+def coq_plain_op(op):
+    k = op[0]
     if k == "Init":
         return f"(Init {z(op[1])} {z(op[2])} {nat(op[3])})"
     if k in ("Stop",):
@@ -451,7 +460,7 @@ def coq_op(op):
 
 
 CASE_HEADER = """From Coq Require Import ZArith List.
-From NQ Require Import Exec.Qmem Exec.QmemCheck.
+From NQ Require Import Exec.Qmem Exec.QmemStop Exec.QmemCheck.
 Import ListNotations.
 Open Scope Z_scope.
 """
